@@ -277,6 +277,51 @@ pub struct Store {
     pub keys: Vec<Vec<u8>>,
 }
 
+fn frac(s: &str) -> Option<f64> {
+    let (p, q) = s.split_once('/')?;
+    Some(p.parse::<f64>().ok()? / q.parse::<f64>().ok()?)
+}
+
+/// `cfg mfs=<n> sync=<none|always|ms> frag=<p>/<q> dead=<n> small=<n> cache=<n> pool=<n>
+///      policy=<never|always> interval=<ms> jitter=<p>/<q> tfrag=<p>/<q> tdead=<n>`
+pub fn cfg_json(toks: &[&str]) -> Option<serde_json::Value> {
+    use serde_json::json;
+    let mut conf = json!({"concurrency": 1, "merge": {"policy": "never", "thresholds": {}, "triggers": {}}});
+    for t in toks {
+        let (k, v) = t.split_once('=')?;
+        match k {
+            "mfs" => conf["max_file_size"] = json!(v.parse::<u64>().ok()?),
+            "sync" => {
+                conf["sync"] = match v {
+                    "none" => json!("none"),
+                    "always" => json!("always"),
+                    ms => json!({"interval_ms": ms.parse::<u64>().ok()?}),
+                }
+            }
+            "cache" => conf["readers_cache_size"] = json!(v.parse::<u64>().ok()?),
+            "pool" => conf["concurrency"] = json!(v.parse::<u64>().ok()?),
+            "frag" => conf["merge"]["thresholds"]["fragmentation"] = json!(frac(v)?),
+            "dead" => conf["merge"]["thresholds"]["dead_bytes"] = json!(v.parse::<u64>().ok()?),
+            "small" => conf["merge"]["thresholds"]["small_file"] = json!(v.parse::<u64>().ok()?),
+            "policy" => conf["merge"]["policy"] = json!(v),
+            "interval" => conf["merge"]["check_interval_ms"] = json!(v.parse::<u64>().ok()?),
+            "jitter" => conf["merge"]["check_jitter"] = json!(frac(v)?),
+            "tfrag" => conf["merge"]["triggers"]["fragmentation"] = json!(frac(v)?),
+            "tdead" => conf["merge"]["triggers"]["dead_bytes"] = json!(v.parse::<u64>().ok()?),
+            _ => return None,
+        }
+    }
+    // serde(default) is per struct: fill the sub-structs completely
+    let th = conf["merge"]["thresholds"].as_object_mut()?;
+    th.entry("fragmentation").or_insert(json!(0.4));
+    th.entry("dead_bytes").or_insert(json!(134217728u64));
+    th.entry("small_file").or_insert(json!(10485760u64));
+    let tr = conf["merge"]["triggers"].as_object_mut()?;
+    tr.entry("fragmentation").or_insert(json!(0.6));
+    tr.entry("dead_bytes").or_insert(json!(536870912u64));
+    Some(conf)
+}
+
 pub fn make_config(cfg: &serde_json::Value, dir: &Path) -> Result<Config, String> {
     let mut conf: Config = serde_json::from_value(cfg.clone()).map_err(|e| e.to_string())?;
     conf.path = dir.to_path_buf();
@@ -309,7 +354,7 @@ impl Store {
         Store {
             dir: root.join("store"),
             root,
-            cfg: serde_json::json!({"merge": {"policy": "never"}, "concurrency": 1}),
+            cfg: cfg_json(&[]).unwrap(),
             kv: None,
             handle: None,
             io,
@@ -478,8 +523,8 @@ impl Store {
 
     fn step_inner(&mut self, toks: &[&str]) -> Option<String> {
         match toks {
-            ["cfg", json] => {
-                self.cfg = serde_json::from_str(json).ok()?;
+            ["cfg", rest @ ..] => {
+                self.cfg = cfg_json(rest)?;
                 Some("ok".into())
             }
             ["dir", name] => {
@@ -595,7 +640,38 @@ impl Store {
                 let t = self.take_trace();
                 Some(format!("{}{}", r, t))
             }
+            ["hazard"] => Some("hazard n/a".into()),
             ["dump"] => Some(Self::dump_string(self.handle.as_ref()?)),
+            ["truth"] => {
+                // ground truth of the per-file accounting, recomputed from the real data files
+                // with the harness' own decoder and the dumped index
+                let d = self.handle.as_ref()?.verif_dump();
+                let mut parts = vec![];
+                for (id, c, _) in data_ids(&self.dir) {
+                    if c != 'd' {
+                        continue;
+                    }
+                    let bytes = fs::read(self.dir.join(long_name(&format!("d{}", id))?)).ok()?;
+                    let (mut pos, mut live, mut dead, mut dead_bytes) = (0usize, 0u64, 0u64, 0u64);
+                    while let Some(n) = record_len("d", &bytes[pos..]) {
+                        let is_live = d
+                            .keydir
+                            .iter()
+                            .any(|k| k.fileid == id && k.pos == pos as u64 && k.len == n as u64);
+                        if is_live {
+                            live += 1;
+                        } else {
+                            dead += 1;
+                            dead_bytes += n as u64;
+                        }
+                        pos += n;
+                    }
+                    if live + dead > 0 {
+                        parts.push(format!("{}={}:{}:{}", id, live, dead, dead_bytes));
+                    }
+                }
+                Some(format!("stats {}", if parts.is_empty() { "-".into() } else { parts.join(",") }))
+            }
             ["files"] => Some(Self::files_string(&self.dir)),
             ["canmerge"] => Some(self.handle.as_ref()?.verif_can_merge().to_string()),
             ["ncalls"] => Some(self.trace.len().to_string()),
